@@ -24,15 +24,21 @@ _counter = itertools.count()
 
 
 class BlackRW:
+    _idents = {}
+    _pidx = {}
+
     def __init__(self, path, R, W, passes):
         self.R, self.W, self.passes, self.path = R, W, passes, path
         self.sched = sched.Scheduler()
         self.ft = sched.FakeThreading(self.sched)
         self.inside = set()
         self.closed = False
+        self._locals = []           # threading.local objects reachable from the lock (found after construction)
+        self.sched.park_hook = self._thread_local_state
         try:
             self.module = sched.load_under_factory(path, "c20_blackbox_copy_%d" % next(_counter), self.ft)
             self.rw = self.module.RWLock()
+            self._locals = find_thread_locals(self.rw, self.module)
             for tid in range(1, R + W + 1):
                 self.sched.start(tid, self._reader if tid <= R else self._writer)
         except BaseException:
@@ -60,12 +66,25 @@ class BlackRW:
         self._cycle(w, self.rw.writer_acquire, self.rw.writer_release)
 
     # ---- observation
+    def _thread_local_state(self, w):
+        """runs IN the worker thread at every scheduling point: what this thread sees in the thread-local objects"""
+        if not self._locals:
+            return None
+        return tuple((i, tuple(sorted((k, repr(self._snap(v, frozenset(), 0))) for k, v in vars(o).items())),
+                      tuple(sorted((k, repr(getattr(o, k, None))) for k in dir(type(o))
+                                   if not k.startswith("__") and not callable(getattr(type(o), k, None)))))
+                     for i, o in enumerate(self._locals))
+
     def holders(self):
         return (tuple(sorted(t for t in self.inside if t <= self.R)), tuple(sorted(t for t in self.inside if t > self.R)))
 
     def _snap(self, o, seen, depth):
+        if isinstance(o, int) and not isinstance(o, bool) and o in self._idents:
+            return ("thread", self._idents[o])      # a thread ident stored by the code: differs from run to run
         if isinstance(o, _SIMPLE):
             return o
+        if isinstance(o, threading.local):
+            return ("thread-local", type(o).__name__)   # its per-thread content is part of each thread's state (below)
         if isinstance(o, sched.CLock):
             return ("prim", self._pidx.get(id(o), -1))
         if id(o) in seen or depth > 8:
@@ -76,7 +95,7 @@ class BlackRW:
         if isinstance(o, (set, frozenset)):
             return ("set", tuple(sorted(repr(self._snap(x, seen, depth + 1)) for x in o)))
         if isinstance(o, dict):
-            return ("dict", tuple(sorted((repr(k), repr(self._snap(v, seen, depth + 1))) for k, v in o.items())))
+            return ("dict", tuple(sorted((repr(self._snap(k, seen, depth + 1)), repr(self._snap(v, seen, depth + 1))) for k, v in o.items())))
         d = getattr(o, "__dict__", None)
         if d is None or callable(o) or isinstance(o, type(sys)):
             return ("obj", type(o).__name__)
@@ -90,6 +109,7 @@ class BlackRW:
     def key(self):
         """identity of the complete state (for the search only; nothing of it is judged)"""
         self._pidx = {id(p): i for i, p in enumerate(self.ft.made)}
+        self._idents = {w.thread.ident: t for t, w in self.sched.workers.items()}
         prims = tuple(p.state() for p in self.ft.made)
         frames = sys._current_frames()
         thr = []
@@ -105,7 +125,7 @@ class BlackRW:
                     pos.append((f.f_code.co_name, f.f_lineno, loc))
                 f = f.f_back
             thr.append((w.phase, w.left, op if op != "crashed" else "crashed:" + str(pr),
-                        self._pidx.get(id(pr), -1) if pr is not None and op != "crashed" else -1, tuple(pos)))
+                        self._pidx.get(id(pr), -1) if pr is not None and op != "crashed" else -1, tuple(pos), w.local_state))
         mods = tuple(sorted((n, repr(self._snap(v, frozenset(), 0))) for n, v in vars(self.module).items()
                             if not n.startswith("_") and not callable(v) and not isinstance(v, type(sys)) and not isinstance(v, sched.FakeThreading)))
         return (prims, tuple(thr), self._snap(self.rw, frozenset(), 0), mods, self.holders())
@@ -129,6 +149,29 @@ class BlackRW:
         if not self.closed:
             self.closed = True
             self.sched.abort_all()
+
+
+def find_thread_locals(root, module=None, limit=2000):
+    """threading.local objects reachable from `root` (instance attributes, class attributes of the module's classes)"""
+    out, seen, todo = [], set(), [root]
+    while todo and len(seen) < limit:
+        o = todo.pop()
+        if id(o) in seen or isinstance(o, _SIMPLE) or isinstance(o, sched.CLock):
+            continue
+        seen.add(id(o))
+        if isinstance(o, threading.local):
+            out.append(o)
+            continue
+        if isinstance(o, (list, tuple, set, frozenset)):
+            todo += list(o)
+        elif isinstance(o, dict):
+            todo += list(o.values())
+        elif hasattr(o, "__dict__") and not callable(o) and not isinstance(o, type(sys)):
+            todo += list(vars(o).values())
+            for k in type(o).__mro__:
+                if module is None or getattr(k, "__module__", None) == getattr(module, "__name__", None):
+                    todo += [v for n, v in vars(k).items() if not n.startswith("__") and not callable(v)]
+    return out
 
 
 def explore(path, R, W, passes=1, max_states=60000, budget_s=600.0):
